@@ -58,8 +58,14 @@ def build(case):
     y = 'type: google.api.Service\nconfig_version: 3\nname: auto.example.com\npublishing:\n  method_settings:\n'
     for sel, fields_ in case['settings']:
         full = sel[4:] if sel.startswith('RAW:') else f'{P}.{svc_of.get(sel, "Auto")}.{sel}'
-        y += f'  - selector: {full}\n    auto_populated_fields:\n' + ''.join(f'    - {x}\n' for x in fields_)
-    req = request([f], 'transport=grpc+rest,autogen-snippets=false,service-yaml=@svc.yaml@')
+        y += f'  - selector: {full}\n'
+        if case.get('long_running'):
+            # the same entry also carries long-running polling settings (usual for a Create method with a request id)
+            y += ('    long_running:\n      initial_poll_delay: 1s\n      poll_delay_multiplier: 1.5\n      max_poll_delay: 5s\n'
+                  '      total_poll_timeout: 60s\n')
+        y += '    auto_populated_fields:\n' + ''.join(f'    - {x}\n' for x in fields_)
+    req = request([f], 'transport=grpc+rest,autogen-snippets=false,service-yaml=@svc.yaml@' + (
+        ',python-gapic-templates=ads-templates,old-naming' if case.get('ads') else ''))
     desc.gate(req)
     return req, {'svc.yaml': y}
 
@@ -75,6 +81,12 @@ def cases():
         sel_field = fname if d['position'] == 'top' else f'inner.{fname}'
         out.append(dict(id='decl/' + decl_id(d), fields=[(fname, d)], methods={'Do': 'unary'}, settings=[('Do', [sel_field])],
                         accept=decl_ok(d), drive=[('Do', [(fname, d)])] if decl_ok(d) else []))
+    for c in list(out):
+        out.append(dict(c, id=c['id'] + '+long_running', long_running=True))
+    # the second template set (sync client only) on the accepted single-field declarations and the multi-method states
+    for c in list(out):
+        if c['accept'] and c['drive'] and not c.get('long_running'):
+            out.append(dict(c, id=c['id'] + '|ads-templates', ads=True))
     for kind in ('server-streaming', 'client-streaming', 'bidi'):
         out.append(dict(id=f'method/{kind}', fields=[('request_id', GOOD)], methods={'Do': kind}, settings=[('Do', ['request_id'])],
                         accept=False, drive=[]))
@@ -109,13 +121,16 @@ def cases():
                     accept=True, drive=[('Do', [('format', GOOD)])]))
     out.append(dict(id='reserved-name/type-optional', fields=[('type', GOOD_OPT)], methods={'Do': 'unary'}, settings=[('Do', ['type'])],
                     accept=True, drive=[('Do', [('type', GOOD_OPT)])]))
+    for c in list(out):
+        if c['id'] in ('two-methods', 'two-services', 'two-fields/both-valid'):
+            out.append(dict(c, id=c['id'] + '|ads-templates', ads=True))
     return out
 
 
 def make_job(case):
     req, of = build(case)
     return dict(id=case['id'], req=req.SerializeToString(), opt_files=of, probe='mc.probes.autopop' if case['drive'] else None,
-                probe_args=dict(package=names.import_package(P), proto_package=P,
+                probe_args=dict(package=P if case.get('ads') else names.import_package(P), proto_package=P, no_aio=bool(case.get('ads')),
                                 drive=[[m, [[n, d['optional']] for n, d in fs], case.get('services', {}).get(m, 'Auto')] for m, fs in case['drive']],
                                 all_auto=[n for n, d in case['fields']]),
                 _case=case)
